@@ -405,14 +405,14 @@ def run_check(pid, tier='quick', seed=0, keep=False, only=None):
 
 def _run_check(pid, tier, seed, udir, meta, work, ev_path, t0, only):
     templates = meta.get('templates', ['unit.c.in'])
-    incdirs = [os.path.join(VERIF, 'prelude'), udir]
+    incdirs = [os.path.join(VERIF, 'prelude'), udir] + [os.path.dirname(os.path.join(udir, t)) for t in templates]
     all_jobs = []
     reports = []
     for tn in templates:
         ex = cxx2c.Extractor(REPO, os.path.join(udir, tn))
         with open(os.path.join(udir, tn)) as f:
             text, jobs = ex.process(f.read())
-        cfile = os.path.join(work, tn.replace('.c.in', '.c'))
+        cfile = cfile_for(work, tn)
         with open(cfile, 'w') as f:
             f.write(text)
         reports.append(ex.report)
@@ -422,7 +422,7 @@ def _run_check(pid, tier, seed, udir, meta, work, ev_path, t0, only):
             all_jobs.append(jb)
     if os.environ.get('VERIF_KEEP_C'):
         for tn in templates:
-            shutil.copy(os.path.join(work, tn.replace('.c.in', '.c')), os.environ['VERIF_KEEP_C'])
+            shutil.copy(cfile_for(work, tn), os.environ['VERIF_KEEP_C'])
 
     # fidelity: extracted C compiled natively vs the real C++ class
     fidelity = None
@@ -585,12 +585,16 @@ def _run_check(pid, tier, seed, udir, meta, work, ev_path, t0, only):
     return 0
 
 
+def cfile_for(work, tn):
+    return os.path.join(work, tn.replace('..', 'up').replace('/', '_').replace('.c.in', '.c'))
+
+
 def native_build(udir, work, templates, driver, out, extra='', link=''):
     """Compile the extracted C natively (CM_NATIVE) and link with a C++ driver
     that includes the real headers."""
     objs = []
     for tn in templates:
-        c = os.path.join(work, tn.replace('.c.in', '.c'))
+        c = cfile_for(work, tn)
         o = c[:-2] + '.native.o'
         cmd = 'gcc -std=gnu11 -O1 -ffp-contract=off -DCM_NATIVE -I%s -I%s -c %s -o %s' % (
             quote(os.path.join(VERIF, 'prelude')), quote(udir), quote(c), quote(o))
@@ -658,7 +662,7 @@ def replay_file(pid, path):
             ex = cxx2c.Extractor(REPO)
             with open(os.path.join(udir, tn)) as f:
                 text, jobs = ex.process(f.read())
-            with open(os.path.join(work, tn.replace('.c.in', '.c')), 'w') as f:
+            with open(cfile_for(work, tn), 'w') as f:
                 f.write(text)
         nat = run_native_replay(udir, work, templates, rec, meta)
         print(json.dumps(nat, indent=1))
